@@ -22,6 +22,9 @@ model/Leapfrog.vos model/Leapfrog.vok model/Leapfrog.required_vos: model/Leapfro
 model/LeapfrogQc.vo model/LeapfrogQc.glob model/LeapfrogQc.v.beautified model/LeapfrogQc.required_vo: model/LeapfrogQc.v model/Leapfrog.vo
 model/LeapfrogQc.vio: model/LeapfrogQc.v model/Leapfrog.vio
 model/LeapfrogQc.vos model/LeapfrogQc.vok model/LeapfrogQc.required_vos: model/LeapfrogQc.v model/Leapfrog.vos
+model/Protocol.vo model/Protocol.glob model/Protocol.v.beautified model/Protocol.required_vo: model/Protocol.v 
+model/Protocol.vio: model/Protocol.v 
+model/Protocol.vos model/Protocol.vok model/Protocol.required_vos: model/Protocol.v 
 proofs/Schedule_facts.vo proofs/Schedule_facts.glob proofs/Schedule_facts.v.beautified proofs/Schedule_facts.required_vo: proofs/Schedule_facts.v lib/Fp.vo model/Schedule.vo
 proofs/Schedule_facts.vio: proofs/Schedule_facts.v lib/Fp.vio model/Schedule.vio
 proofs/Schedule_facts.vos proofs/Schedule_facts.vok proofs/Schedule_facts.required_vos: proofs/Schedule_facts.v lib/Fp.vos model/Schedule.vos
@@ -55,3 +58,15 @@ Properties/C17.vos Properties/C17.vok Properties/C17.required_vos: Properties/C1
 Properties/C02.vo Properties/C02.glob Properties/C02.v.beautified Properties/C02.required_vo: Properties/C02.v model/Leapfrog.vo model/LeapfrogQc.vo proofs/Leapfrog_facts.vo
 Properties/C02.vio: Properties/C02.v model/Leapfrog.vio model/LeapfrogQc.vio proofs/Leapfrog_facts.vio
 Properties/C02.vos Properties/C02.vok Properties/C02.required_vos: Properties/C02.v model/Leapfrog.vos model/LeapfrogQc.vos proofs/Leapfrog_facts.vos
+Properties/C10.vo Properties/C10.glob Properties/C10.v.beautified Properties/C10.required_vo: Properties/C10.v model/Protocol.vo
+Properties/C10.vio: Properties/C10.v model/Protocol.vio
+Properties/C10.vos Properties/C10.vok Properties/C10.required_vos: Properties/C10.v model/Protocol.vos
+Properties/C11.vo Properties/C11.glob Properties/C11.v.beautified Properties/C11.required_vo: Properties/C11.v model/Protocol.vo
+Properties/C11.vio: Properties/C11.v model/Protocol.vio
+Properties/C11.vos Properties/C11.vok Properties/C11.required_vos: Properties/C11.v model/Protocol.vos
+Properties/C12.vo Properties/C12.glob Properties/C12.v.beautified Properties/C12.required_vo: Properties/C12.v model/Protocol.vo
+Properties/C12.vio: Properties/C12.v model/Protocol.vio
+Properties/C12.vos Properties/C12.vok Properties/C12.required_vos: Properties/C12.v model/Protocol.vos
+Properties/C13.vo Properties/C13.glob Properties/C13.v.beautified Properties/C13.required_vo: Properties/C13.v model/Protocol.vo
+Properties/C13.vio: Properties/C13.v model/Protocol.vio
+Properties/C13.vos Properties/C13.vok Properties/C13.required_vos: Properties/C13.v model/Protocol.vos
